@@ -33,6 +33,8 @@ import time
 import vlib
 
 CLOCKS = ["blockchain/blockchain.go", "protocol/full.go"]
+REQUIRED_ACCEPT = [("msg", c) for c in (1, 2, 3, 4, 6, 7, 8, 9, 10, 11, 12, 13, 14, 15, 16, 17, 18, 20)] + \
+                  [("block", e) for e in ("validate", "add", "subchain", "fullsync")] + [("tx", "validate"), ("tx", "wire")]
 VERDICTS = ("accept", "rejectDecode", "rejectValidation", "ignore")
 
 
@@ -84,7 +86,11 @@ def run_shard(ctx, drv, cases_path, shard, nshards, by_id):
             details += vlib.read_ndjson(det)
         if p.returncode == 0:
             return rows, details
-        log = p.stdout or ""
+        log = "\n" + (p.stdout or "")
+        if p.returncode == 4 and "RESTART-AFTER-TIMEOUT" in log:
+            # the case in flight got its TIMEOUT line; the process was abandoned together with the goroutine that hung
+            after = int(open(inf).read().strip())
+            continue
         if crash_is_harness(log):
             raise vlib.CheckError("driver shard %d failed (rc=%d), not a verdict:\n%s" % (shard, p.returncode, log[-3000:]))
         try:
@@ -95,7 +101,7 @@ def run_shard(ctx, drv, cases_path, shard, nshards, by_id):
         site = ""
         for l in log[i:].splitlines():
             if l.startswith("github.com/idena-network/idena-go/"):
-                site = l.split("(")[0].replace("github.com/idena-network/idena-go/", "")
+                site = l.rsplit("(", 1)[0].replace("github.com/idena-network/idena-go/", "")
                 break
         if any(r_["id"] == cur for r_ in rows):
             raise vlib.CheckError("driver shard %d died after completing case %d:\n%s" % (shard, cur, log[-3000:]))
@@ -176,7 +182,7 @@ def describe(key, clause, items):
 def pick_cases(ctx, quick, rnd):
     """Exhaustive table of the tier + a seeded sample of the next larger table + repeated byte samples."""
     cfg = "MC_Wire_quick.cfg" if quick else "MC_Wire_thorough.cfg"
-    big_cfg = "MC_Wire_thorough.cfg" if quick else "MC_Wire_xl.cfg"
+    big_cfg = "MC_Wire_mid.cfg" if quick else "MC_Wire_xl.cfg"
     with concurrent.futures.ThreadPoolExecutor(max_workers=3) as ex:
         f1 = ex.submit(model, ctx, cfg)
         f2 = ex.submit(model, ctx, big_cfg)
@@ -206,7 +212,7 @@ def pick_cases(ctx, quick, rnd):
 def selftest(ctx, rows):
     """Binding self-test: a recorded clean trace must be accepted, the same trace with one outcome replaced by
     PANIC, with one allocation blown up, and with one shape mangled must each be rejected."""
-    clean = [r for r in rows if r["verdict"] in VERDICTS and r["alloc"] <= 64 * r["frame"] + 67108864][:400]
+    clean = [r for r in rows if r["verdict"] in VERDICTS and r["alloc"] <= 64 * r["frame"] + 16777216][:400]
     if len(clean) < 50:
         raise vlib.CheckError("self-test: fewer than 50 clean trace lines")
     good = ctx.path("selftest", "good.ndjson")
@@ -264,6 +270,11 @@ def main(ctx):
             raise vlib.CheckError("dead driver: no case of layer %s was run" % layer)
     if outcome.get("accept", 0) < 50 or outcome.get("rejectDecode", 0) < 50 or outcome.get("rejectValidation", 0) < 50:
         raise vlib.CheckError("dead driver: verdict classes hardly exercised: %s" % dict(outcome))
+    # vacuity: the well-formed point of every lattice must get through to the code behind the gates
+    accepted = collections.Counter((r_["c"]["layer"], r_["c"].get("code", r_["c"].get("entry"))) for r_ in rows if r_["verdict"] == "accept")
+    dead = [k for k in REQUIRED_ACCEPT if not accepted.get(k)]
+    if dead:
+        raise vlib.CheckError("dead driver: no accepted case for %s (the well-formed objects do not reach the code behind the gates)" % dead)
 
     # 3. TLC judges the trace
     ok, info = vlib.trace_validate(ctx, "Trace_Wire.tla", "Trace_Wire.cfg", trace, timeout=3000)
@@ -316,6 +327,6 @@ def main(ctx):
     return vlib.finish(ctx, "model_checking", cov, assumptions=[
         "the queue hop of AsyncTxPool / AsyncKeysPool / the flipper write loop is folded into the call (their loop bodies run on the case goroutine)",
         "the libp2p host is absent: the handler is built by its real constructor with a nil host, the peer by the real newPeer over an in-memory stream",
-        "Proportionate bound: alloc <= 64 * |frame| + 64 MiB (process-wide TotalAlloc delta, so background allocation counts against the case)",
+        "Proportionate bound: alloc <= 64 * |frame| + 16 MiB (process-wide TotalAlloc delta, so background allocation counts against the case)",
         "validation periods other than None, fast sync and snapshot download are not part of the state classes",
     ])
